@@ -50,25 +50,25 @@ Proof.
   { intros s0 code E0 Hc E; inversion E; subst. rewrite E0. split; auto.
     exists f. split; auto. split; [intros; contradiction|auto]. }
   destruct (is_builtin_unit (t_unit f) && bi p).
-  - eapply Hset; eauto.
+  - apply (Hset s (mkT (t_unit f) p)); auto.
   - destruct (is_builtin_unit (t_unit f)).
     + destruct (create_and_map s p th o) as [[s1 [nu|]] code] eqn:E1;
         pose proof (create_and_map_thr _ _ _ _ _ _ _ E1) as Et.
-      * eapply Hset; eauto.
-      * pose proof (create_and_map_cases bi _ _ _ _ _ _ _ E1) as Hc. cbn in Hc.
-        eapply Hfail; eauto. destruct Hc as (_ & _ & [[-> _]|[-> _]]); discriminate.
+      * apply (Hset s1 (mkT nu p)); auto.
+      * pose proof (create_and_map_cases _ _ _ _ _ _ _ E1) as Hc. cbn in Hc.
+        apply (Hfail s1 code); auto. destruct Hc as (_ & _ & [[-> _]|[-> _]]); discriminate.
     + destruct (bi p).
       * destruct (unmap_and_free s (t_pool f) (t_unit f)) as [s1|] eqn:E1; [|discriminate].
-        pose proof (unmap_and_free_thr _ _ _ _ E1). eapply Hset; eauto.
+        pose proof (unmap_and_free_thr _ _ _ _ E1). apply (Hset s1 (mkT (builtin_unit th) p)); auto.
       * destruct (Z.eqb_spec (t_pool f) p) as [Ep|Np].
-        -- inversion H; subst. split; auto. exists f. split; auto. split; auto.
+        -- inversion H; subst. split; [auto|]. exists f. split; [auto|]. split; [auto|].
            intros C; exfalso; apply C; reflexivity.
         -- destruct (create_and_map s p th o) as [[s1 [nu|]] code] eqn:E1;
              pose proof (create_and_map_thr _ _ _ _ _ _ _ E1) as Et.
            ++ destruct (unmap_and_free s1 (t_pool f) (t_unit f)) as [s2|] eqn:E2; [|discriminate].
-              pose proof (unmap_and_free_thr _ _ _ _ E2). eapply Hset; eauto. congruence.
-           ++ pose proof (create_and_map_cases bi _ _ _ _ _ _ _ E1) as Hc. cbn in Hc.
-              eapply Hfail; eauto. destruct Hc as (_ & _ & [[-> _]|[-> _]]); discriminate.
+              pose proof (unmap_and_free_thr _ _ _ _ E2). apply (Hset s2 (mkT nu p)); auto. congruence.
+           ++ pose proof (create_and_map_cases _ _ _ _ _ _ _ E1) as Hc. cbn in Hc.
+              apply (Hfail s1 code); auto. destruct Hc as (_ & _ & [[-> _]|[-> _]]); discriminate.
 Qed.
 
 Lemma init_pool_thr s th p o s' c :
@@ -77,11 +77,11 @@ Lemma init_pool_thr s th p o s' c :
   (c <> ABT_SUCCESS -> a_thr s' = a_thr s).
 Proof.
   unfold thread_init_pool. destruct (bi p).
-  - intros E; inversion E; subst. split; [eauto|intros C; exfalso; apply C; reflexivity].
+  - intros E; inversion E; subst. split; [intros _; eexists; reflexivity|intros C; exfalso; apply C; reflexivity].
   - destruct (create_and_map s p th o) as [[s1 [nu|]] code] eqn:E1;
       pose proof (create_and_map_thr _ _ _ _ _ _ _ E1) as Et; intros E; inversion E; subst.
     + split; [|intros C; exfalso; apply C; reflexivity]. intros _. exists nu. cbn. rewrite Et. reflexivity.
-    + pose proof (create_and_map_cases bi _ _ _ _ _ _ _ E1) as Hc. cbn in Hc.
+    + pose proof (create_and_map_cases _ _ _ _ _ _ _ E1) as Hc. cbn in Hc.
       split; auto. intros ->. destruct Hc as (_ & _ & [[C _]|[C _]]); discriminate.
 Qed.
 
@@ -207,17 +207,19 @@ Lemma XInv_with_a s a' th x :
   (exists f', zfind (a_thr a') th = Some f' /\ pool_declared s (t_pool f') = true) ->
   XInv (with_a s a').
 Proof.
-  intros HI Ha Ex Hl Hoth (f' & Ef' & Hd). split; cbn; auto.
+  intros HI Ha Ex Hl Hoth (f' & Ef' & Hd).
+  pose proof (xi_dom _ HI) as Xdom. pose proof (xi_content _ HI) as Xcont.
+  pose proof (xi_declared _ HI) as Xdecl. unfold thr_of in *. split; unfold thr_of; cbn; auto.
   - intros t. destruct (Z.eq_dec t th) as [->|Hne].
     + rewrite Ex, Ef'. split; discriminate.
-    + unfold thr_of. cbn. rewrite Hoth by auto. apply (xi_dom _ HI).
-  - intros p c Ec. destruct (xi_content _ HI _ _ Ec) as [Hnd H]. split; auto.
+    + rewrite Hoth by auto. apply Xdom.
+  - intros p c Ec. destruct (Xcont _ _ Ec) as [Hnd H]. split; auto.
     intros u Hu. destruct (H _ Hu) as (t' & f0 & x0 & Ef0 & Eu & Ep & Ex0 & Hl0).
     assert (t' <> th) by (intros ->; rewrite Ex in Ex0; inversion Ex0; subst; contradiction).
-    exists t', f0, x0. unfold thr_of. cbn. rewrite Hoth by auto. auto.
-  - intros t f. unfold thr_of. cbn. destruct (Z.eq_dec t th) as [->|Hne].
+    exists t', f0, x0. rewrite Hoth by auto. auto.
+  - intros t f. destruct (Z.eq_dec t th) as [->|Hne].
     + rewrite Ef'. intros E; inversion E; subst. exact Hd.
-    + rewrite Hoth by auto. apply (xi_declared _ HI).
+    + rewrite Hoth by auto. apply Xdecl.
   - apply (xi_mig _ HI).
 Qed.
 
@@ -273,7 +275,7 @@ Proof.
   assert (Ha : Inv bi (if bi p then x_a s else add_log (x_a s) (CPush p u))).
   { destruct (bi p) eqn:Hb; [apply (xi_a _ HI)|].
     apply Inv_add_log; [apply (xi_a _ HI)|].
-    eapply LogRel_push; [apply (inv_log _ _ (xi_a _ HI))|]. apply live_UA; auto. }
+    eapply LogRel_push; [apply (inv_log _ _ (xi_a _ HI))|]. apply (live_UA s th f); auto. }
   assert (Ethr : a_thr (if bi p then x_a s else add_log (x_a s) (CPush p u)) = a_thr (x_a s))
     by (destruct (bi p); reflexivity).
   unfold pool_push. rewrite Ec. fold p u.
@@ -302,6 +304,421 @@ Proof.
     destruct (Z.eqb_spec t th) as [->|].
     + intros E; inversion E; subst. cbn. apply Hm.
     + apply (xi_mig _ HI).
+Qed.
+
+
+Lemma XInv_push' s th x0 x' :
+  XInv s -> zfind (x_thr s) th = Some x0 -> x_loc x0 <> LPool ->
+  (forall q, x_mig x' = Some q -> pool_declared s q = true) ->
+  XInv (push_thread_unit bi s th x').
+Proof.
+  intros HI Ex Hl Hm.
+  destruct (XInv_push s th x0 (mkX LPool (x_mig x') (x_named x') (x_script x')) HI Ex Hl eq_refl Hm) as [H _].
+  exact H.
+Qed.
+
+(* ---- core of every "set the associated pool" site ---- *)
+Lemma set_assoc_core s th x p o :
+  XInv s -> zfind (x_thr s) th = Some x -> x_loc x <> LPool -> pool_declared s p = true ->
+  oracle_ok (x_a s) o = true ->
+  exists a' c, thread_set_associated_pool bi (x_a s) th p o = Some (a', c) /\
+    XInv (with_a s a') /\
+    (c = ABT_SUCCESS -> exists f', zfind (a_thr a') th = Some f' /\ t_pool f' = p).
+Proof.
+  intros HI Ex Hl Hd Hor. destruct (dom_some_x _ _ _ HI Ex) as [f Ef].
+  destruct (set_associated_pool_Inv bi (x_a s) th p o (xi_a _ HI)) as (a' & c & E & Ha & Hf).
+  { cbn. rewrite Hor. unfold thr_of in Ef. rewrite Ef. reflexivity. }
+  exists a', c. split; auto.
+  destruct (set_assoc_thr bi _ _ _ _ _ _ _ E Ef) as [Hoth (f' & Ef' & Hs & Hn)].
+  split.
+  - eapply XInv_with_a; eauto. exists f'. split; auto.
+    destruct (Z.eq_dec c ABT_SUCCESS) as [->|Hc].
+    + rewrite Hs by auto. auto.
+    + rewrite Hn by auto. apply (xi_declared _ HI _ _ Ef).
+  - intros ->. exists f'. split; auto.
+Qed.
+
+(* states that differ only in the completion counters *)
+Lemma XInv_runs s r : XInv s -> XInv (mkXS (x_a s) (x_thr s) (x_pools s) r).
+Proof. intros [H1 H2 H3 H4 H5]. split; auto. Qed.
+
+(* states whose association part changed without touching the thread list *)
+Lemma XInv_with_a_same s a' :
+  XInv s -> Inv bi a' -> a_thr a' = thr_of s -> XInv (with_a s a').
+Proof.
+  intros [H1 H2 H3 H4 H5] Ha Et. unfold thr_of in *. split; unfold thr_of; cbn; auto; rewrite Et; auto.
+Qed.
+
+(* ---- removing a descriptor that is not in a pool ---- *)
+Lemma XInv_remove s th x :
+  XInv s -> zfind (x_thr s) th = Some x -> x_loc x <> LPool ->
+  exists a', thread_unset_associated_pool (x_a s) th = Some a' /\
+             XInv (mkXS a' (zdel (x_thr s) th) (x_pools s) (x_runs s)).
+Proof.
+  intros HI Ex Hl. destruct (dom_some_x _ _ _ HI Ex) as [f Ef].
+  destruct (unset_associated_pool_Inv bi (x_a s) th (xi_a _ HI)) as (a' & E & Ha).
+  { cbn. unfold thr_of in Ef. rewrite Ef. reflexivity. }
+  exists a'. split; auto. pose proof (unset_thr _ _ _ E) as Et.
+  pose proof (xi_dom _ HI) as Xdom. pose proof (xi_content _ HI) as Xcont.
+  pose proof (xi_declared _ HI) as Xdecl. pose proof (xi_mig _ HI) as Xmig.
+  unfold thr_of in *. split; unfold thr_of; cbn; auto; rewrite ?Et.
+  - intros t. rewrite !zfind_zdel. destruct (Z.eqb_spec t th); [tauto|apply Xdom].
+  - intros p c Ec. destruct (Xcont _ _ Ec) as [Hnd H]. split; auto.
+    intros u Hu. destruct (H _ Hu) as (t' & f0 & x0 & Ef0 & Eu & Ep & Ex0 & Hl0).
+    assert (t' <> th) by (intros ->; rewrite Ex in Ex0; inversion Ex0; subst; contradiction).
+    exists t', f0, x0. rewrite !zfind_zdel. destruct (Z.eqb_spec t' th); [contradiction|]. auto.
+  - intros t f0. rewrite zfind_zdel. destruct (Z.eqb_spec t th); [discriminate|apply Xdecl].
+  - intros t x0 q. rewrite zfind_zdel. destruct (Z.eqb_spec t th); [discriminate|apply Xmig].
+Qed.
+
+Definition mig_ok (s : xstate) (x : xthr) : Prop :=
+  forall q, x_mig x = Some q -> pool_declared s q = true.
+
+Lemma terminate_XInv s th x0 x :
+  XInv s -> zfind (x_thr s) th = Some x0 -> x_loc x0 <> LPool -> mig_ok s x ->
+  match terminate s th x with
+  | Ok s' => XInv s'
+  | Misuse => True
+  | Abort => False
+  | Wrong => False
+  end.
+Proof.
+  intros HI Ex Hl Hm. unfold terminate.
+  assert (HI1 : XInv (bump_runs s th)) by (apply XInv_runs; auto).
+  destruct (x_named x).
+  - apply (XInv_set_x (bump_runs s th) th x0 _ HI1 Ex);
+      [right; split; [auto|discriminate]|intros q Hq; apply (Hm q Hq)].
+  - destruct (XInv_remove (bump_runs s th) th x0 HI1 Ex Hl) as (a' & E & H).
+    unfold bump_runs in *. cbn [x_a x_thr x_pools x_runs] in *. rewrite E. exact H.
+Qed.
+
+(* ---- pop ---- *)
+Lemma remove_nth_in {A} (l : list A) i v : In v (remove_nth l i) -> In v l.
+Proof.
+  revert i. induction l as [|a l IH]; destruct i; cbn; auto. intros [E|H]; auto. right. eapply IH; eauto.
+Qed.
+Lemma remove_nth_nodup {A} (l : list A) i : NoDup l -> NoDup (remove_nth l i).
+Proof.
+  revert i. induction l as [|a l IH]; destruct i; cbn; intros H; auto.
+  - inversion H; auto.
+  - inversion H; subst. constructor; auto. intros Hin. apply H2. eapply remove_nth_in; eauto.
+Qed.
+Lemma remove_nth_notin {A} (l : list A) i d :
+  NoDup l -> (i < length l)%nat -> ~ In (nth i l d) (remove_nth l i).
+Proof.
+  revert i. induction l as [|a l IH]; destruct i; cbn; intros H Hi; try lia.
+  - inversion H; auto.
+  - inversion H; subst. intros [E|Hin].
+    + apply H2. rewrite E. apply nth_In. lia.
+    + apply (IH i); auto. lia.
+Qed.
+
+Lemma unit_get_thread_log a c u : unit_get_thread (add_log a c) u = unit_get_thread a u.
+Proof. reflexivity. Qed.
+
+Lemma XInv_pop s p c i :
+  XInv s -> zfind (x_pools s) p = Some c -> (i < length c)%nat ->
+  let u := nth i c 0 in
+  let a := if bi p then x_a s else add_log (x_a s) (CPop p u) in
+  exists th f x,
+    unit_get_thread a u = Some th /\ zfind (x_thr s) th = Some x /\ zfind (a_thr a) th = Some f /\
+    (t_unit f = u /\ t_pool f = p /\ x_loc x = LPool /\ In u c) /\
+    XInv (mkXS a (zset (x_thr s) th (mkX LOut (x_mig x) (x_named x) (x_script x)))
+               (zset (x_pools s) p (remove_nth c i)) (x_runs s)).
+Proof.
+  intros HI Ec Hi u a.
+  destruct (xi_content _ HI _ _ Ec) as [Hnd H].
+  assert (Hu : In u c) by (apply nth_In; auto).
+  destruct (H _ Hu) as (th & f & x & Ef & Eu & Ep & Ex & Hl).
+  assert (Hd : pool_declared s p = true) by (unfold pool_declared; rewrite Ec; reflexivity).
+  assert (Ha : Inv bi a).
+  { unfold a. destruct (bi p) eqn:Hb; [apply (xi_a _ HI)|].
+    apply Inv_add_log; [apply (xi_a _ HI)|].
+    eapply LogRel_pop; [apply (inv_log _ _ (xi_a _ HI))|].
+    rewrite <- Eu, <- Ep. apply (live_UA s th f); auto. rewrite Ep. auto. }
+  assert (Ethr : a_thr a = a_thr (x_a s)) by (unfold a; destruct (bi p); reflexivity).
+  assert (Eget : unit_get_thread a u = Some th).
+  { assert (unit_get_thread a u = unit_get_thread (x_a s) u) by (unfold a; destruct (bi p); reflexivity).
+    rewrite H0, <- Eu. apply (get_thread_correct bi); auto. apply (xi_a _ HI). }
+  exists th, f, x. rewrite Ethr. split; [auto|]. split; [auto|]. split; [auto|]. split; [auto|].
+  pose proof (xi_dom _ HI) as Xdom. pose proof (xi_content _ HI) as Xcont.
+  pose proof (xi_declared _ HI) as Xdecl. pose proof (xi_mig _ HI) as Xmig.
+  unfold thr_of in *. split; unfold thr_of; cbn; auto; rewrite ?Ethr.
+  - intros t. rewrite zfind_zset. destruct (Z.eqb_spec t th) as [->|]; [|apply Xdom].
+    rewrite Ef. split; discriminate.
+  - intros q cq. rewrite zfind_zset. destruct (Z.eqb_spec q p) as [->|Nq].
+    + intros E; inversion E; subst cq. split; [apply remove_nth_nodup; auto|].
+      intros v Hv. pose proof (remove_nth_in _ _ _ Hv) as Hv'.
+      destruct (H _ Hv') as (t' & f' & x1 & Ef' & Eu' & Ep' & Ex1 & Hl1).
+      assert (t' <> th).
+      { intros ->. rewrite Ef in Ef'. inversion Ef'; subst f'.
+        apply (remove_nth_notin c i 0 Hnd Hi). fold u. rewrite <- Eu, Eu'. exact Hv. }
+      exists t', f', x1. rewrite zfind_zset. destruct (Z.eqb_spec t' th); [contradiction|]. auto.
+    + intros Eq. destruct (Xcont _ _ Eq) as [Hndq Hq]. split; auto.
+      intros v Hv. destruct (Hq _ Hv) as (t' & f' & x1 & Ef' & Eu' & Ep' & Ex1 & Hl1).
+      assert (t' <> th) by (intros ->; rewrite Ef in Ef'; inversion Ef'; subst; congruence).
+      exists t', f', x1. rewrite zfind_zset. destruct (Z.eqb_spec t' th); [contradiction|]. auto.
+  - intros t f0 E0. unfold pool_declared. cbn.
+    rewrite (declared_zset s p (remove_nth c i) (t_pool f0) Hd). eapply Xdecl; eauto.
+  - intros t x1 q. rewrite zfind_zset. unfold pool_declared. cbn.
+    rewrite (declared_zset s p (remove_nth c i) q Hd).
+    destruct (Z.eqb_spec t th) as [->|]; [|apply Xmig].
+    intros E; inversion E; subst. cbn. apply (Xmig _ _ _ Ex).
+Qed.
+
+(* ---- the body of a work unit ---- *)
+Lemma x_set_assoc_ok s th x p os :
+  XInv s -> zfind (x_thr s) th = Some x -> x_loc x <> LPool -> pool_declared s p = true ->
+  match x_set_assoc bi s th p os with
+  | Ok (s1, c, os') =>
+      XInv s1 /\ x_thr s1 = x_thr s /\ x_pools s1 = x_pools s /\
+      (c = ABT_SUCCESS -> exists f', zfind (thr_of s1) th = Some f' /\ t_pool f' = p)
+  | Misuse => True
+  | Abort => False
+  | Wrong => False
+  end.
+Proof.
+  intros HI Ex Hl Hd. unfold x_set_assoc.
+  destruct (take_oracle bi (x_a s) th p os) as [o os'].
+  destruct (oracle_ok (x_a s) o) eqn:Hor; cbn [negb]; auto.
+  destruct (set_assoc_core s th x p o HI Ex Hl Hd Hor) as (a' & c & E & HI' & Hp).
+  rewrite E. split; [exact HI'|]. split; [reflexivity|]. split; [reflexivity|]. exact Hp.
+Qed.
+
+Lemma run_script_XInv th : forall script s x0 x os,
+  XInv s -> zfind (x_thr s) th = Some x0 -> x_loc x0 <> LPool -> mig_ok s x ->
+  match run_script bi s th x script os with
+  | Ok (s', w) => XInv s'
+  | Misuse => True
+  | Abort => False
+  | Wrong => False
+  end.
+Proof.
+  induction script as [|a script IH]; intros s x0 x os HI Ex Hl Hm; cbn [run_script].
+  - pose proof (terminate_XInv s th x0 x HI Ex Hl Hm) as H.
+    destruct (terminate s th x); auto.
+  - destruct a as [|q].
+    + (* yield *)
+      cbn [x_mig]. destruct (x_mig x) as [q|] eqn:Emig.
+      * pose proof (x_set_assoc_ok s th x0 q os HI Ex Hl (Hm q Emig)) as H.
+        destruct (x_set_assoc bi s th q os) as [[[s1 c] os']| | |]; auto.
+        destruct H as (HI1 & Et & Ep & _).
+        apply (XInv_push' s1 th x0); auto; [rewrite Et; auto|].
+        intros q' Hq'. unfold pool_declared. rewrite Ep. fold (pool_declared s q').
+        destruct (c =? ABT_SUCCESS); cbn in Hq'; [discriminate|]. apply Hm. congruence.
+      * apply (XInv_push' s th x0); auto. cbn. intros q' Hq'. congruence.
+    + (* migrate self *)
+      destruct (dom_some_x _ _ _ HI Ex) as [f Ef]. unfold thr_of in Ef. rewrite Ef.
+      destruct (pool_declared s q) eqn:Hd; cbn [negb]; auto.
+      apply (IH s x0); auto.
+      destruct (t_pool f =? q); auto. intros q' Hq'. cbn in Hq'. inversion Hq'; subst. auto.
+Qed.
+
+Lemma schedule_XInv s th x0 x os :
+  XInv s -> zfind (x_thr s) th = Some x0 -> x_loc x0 <> LPool -> mig_ok s x ->
+  match schedule bi s th x os with
+  | Ok (s', w) => XInv s'
+  | Misuse => True
+  | Abort => False
+  | Wrong => False
+  end.
+Proof.
+  intros HI Ex Hl Hm. unfold schedule. destruct (x_mig x) as [q|] eqn:Emig.
+  - pose proof (x_set_assoc_ok s th x0 q os HI Ex Hl (Hm q Emig)) as H.
+    destruct (x_set_assoc bi s th q os) as [[[s1 c] os']| | |]; auto.
+    destruct H as (HI1 & Et & Ep & _).
+    destruct (c =? ABT_SUCCESS).
+    + apply (XInv_push' s1 th x0); auto; [rewrite Et; auto|]. cbn. discriminate.
+    + apply (run_script_XInv th (x_script x) s1 x0 x os'); auto; [rewrite Et; auto|].
+      intros q' Hq'. unfold pool_declared. rewrite Ep. apply (Hm q' Hq').
+  - apply (run_script_XInv th (x_script x) s x0 x os); auto.
+Qed.
+
+(* ---- every public operation ---- *)
+Theorem xstep_XInv s op :
+  XInv s ->
+  match xstep bi s op with
+  | Ok (s', r) => XInv s'
+  | Misuse => True
+  | Abort => False
+  | Wrong => False
+  end.
+Proof.
+  intros HI. destruct op as [th p named script os|p th os|p th os|p k|th p os|th p|th os|th p os|th|th p script os|th];
+    cbn [xstep].
+  - (* create *)
+    destruct (pool_declared s p) eqn:Hd; cbn [negb orb]; auto.
+    destruct (thread_ptr_ok th) eqn:Hth; cbn [negb]; auto.
+    destruct (zfind (a_thr (x_a s)) th) eqn:Ef; auto.
+    destruct (zfind (x_thr s) th) eqn:Ex; auto.
+    destruct (next_oracle os) as [o os'].
+    destruct (oracle_ok (x_a s) o) eqn:Hor; cbn [negb]; auto.
+    destruct (init_pool_Inv bi (x_a s) th p o (xi_a _ HI)) as (a' & c & E & Ha & Hf).
+    { cbn. rewrite Hth, Hor, Ef. reflexivity. }
+    rewrite E. destruct (init_pool_thr bi _ _ _ _ _ _ E) as [Hs Hn].
+    destruct (Z.eqb_spec c ABT_SUCCESS) as [->|Hc].
+    + destruct (Hs eq_refl) as [u Et].
+      set (x := mkX LOut None named script).
+      assert (HI1 : XInv (set_x (with_a s a') th x)).
+      { pose proof (xi_dom _ HI) as Xdom. pose proof (xi_content _ HI) as Xcont.
+        pose proof (xi_declared _ HI) as Xdecl. pose proof (xi_mig _ HI) as Xmig.
+        unfold thr_of in *. split; unfold thr_of; cbn; auto; rewrite ?Et.
+        - intros t. rewrite !zfind_zset. destruct (Z.eqb_spec t th); [split; discriminate|apply Xdom].
+        - intros q cq Eq. destruct (Xcont _ _ Eq) as [Hnd H]. split; auto.
+          intros v Hv. destruct (H _ Hv) as (t' & f' & x1 & Ef' & Eu' & Ep' & Ex1 & Hl1).
+          assert (t' <> th) by (intros ->; congruence).
+          exists t', f', x1. rewrite !zfind_zset. destruct (Z.eqb_spec t' th); [contradiction|]. auto.
+        - intros t f0. rewrite zfind_zset. destruct (Z.eqb_spec t th).
+          + intros E0; inversion E0; subst. cbn. exact Hd.
+          + apply Xdecl.
+        - intros t x1 q. rewrite zfind_zset. destruct (Z.eqb_spec t th).
+          + intros E0; inversion E0; subst. discriminate.
+          + apply Xmig. }
+      apply (XInv_push' _ th x); auto.
+      * cbn. rewrite zfind_zset, Z.eqb_refl. reflexivity.
+      * discriminate.
+      * discriminate.
+    + apply XInv_with_a_same; auto.
+  - (* push_thread *)
+    destruct (pool_declared s p) eqn:Hd; cbn [negb]; auto.
+    destruct (zfind (x_thr s) th) as [x|] eqn:Ex; auto.
+    destruct (x_loc x) eqn:El; auto.
+    assert (Hl : x_loc x <> LPool) by congruence.
+    pose proof (x_set_assoc_ok s th x p os HI Ex Hl Hd) as H.
+    destruct (x_set_assoc bi s th p os) as [[[s1 c] os']| | |]; auto.
+    destruct H as (HI1 & Et & Ep & _).
+    destruct (c =? ABT_SUCCESS); auto.
+    apply (XInv_push' s1 th x); auto; [rewrite Et; auto|].
+    intros q Hq. unfold pool_declared. rewrite Ep. apply (xi_mig _ HI _ _ _ Ex Hq).
+  - (* push (unit) *)
+    destruct (pool_declared s p) eqn:Hd; cbn [negb]; auto.
+    destruct (zfind (x_thr s) th) as [x|] eqn:Ex; auto.
+    destruct (zfind (a_thr (x_a s)) th) as [f|] eqn:Ef; auto.
+    destruct (x_loc x) eqn:El; auto.
+    assert (Hl : x_loc x <> LPool) by congruence.
+    destruct (take_oracle bi (x_a s) th p os) as [o os'].
+    destruct (oracle_ok (x_a s) o) eqn:Hor; cbn [negb]; auto.
+    rewrite (unit_set_eq_thread_set bi _ _ _ p o (xi_a _ HI) Ef).
+    destruct (set_assoc_core s th x p o HI Ex Hl Hd Hor) as (a' & c & E & HI' & Hp).
+    rewrite E. destruct (Z.eqb_spec c ABT_SUCCESS) as [->|Hc]; auto.
+    cbn. rewrite Ex. apply (XInv_push' (with_a s a') th x); auto.
+    intros q Hq. apply (xi_mig _ HI _ _ _ Ex Hq).
+  - (* pop *)
+    destruct (zfind (x_pools s) p) as [c|] eqn:Ec; auto.
+    destruct c as [|u0 c']; [exact HI|].
+    set (c := u0 :: c') in *.
+    set (i := if bi p then O else Z.to_nat (k mod Z.of_nat (length c))).
+    assert (Hi : (i < length c)%nat).
+    { unfold i. destruct (bi p); [cbn; lia|].
+      assert (0 < Z.of_nat (length c)) by (cbn [length c]; lia).
+      pose proof (Z.mod_pos_bound k (Z.of_nat (length c)) H). lia. }
+    destruct (XInv_pop s p c i HI Ec Hi) as (th & f & x & Eg & Ex & Ef & Eu & HI').
+    cbv zeta in Eg, Ef, HI'. rewrite Eg, Ex, Ef. exact HI'.
+  - (* set_associated_pool *)
+    destruct (pool_declared s p) eqn:Hd; cbn [negb]; auto.
+    destruct (zfind (x_thr s) th) as [x|] eqn:Ex; auto.
+    destruct (x_loc x) eqn:El; auto.
+    + assert (Hl : x_loc x <> LPool) by congruence.
+      pose proof (x_set_assoc_ok s th x p os HI Ex Hl Hd) as H.
+      destruct (x_set_assoc bi s th p os) as [[[s1 c] os']| | |]; tauto.
+    + assert (Hl : x_loc x <> LPool) by congruence.
+      pose proof (x_set_assoc_ok s th x p os HI Ex Hl Hd) as H.
+      destruct (x_set_assoc bi s th p os) as [[[s1 c] os']| | |]; tauto.
+  - (* migrate_to_pool *)
+    destruct (pool_declared s p) eqn:Hd; cbn [negb]; auto.
+    destruct (zfind (x_thr s) th) as [x|] eqn:Ex; auto.
+    destruct (zfind (a_thr (x_a s)) th) as [f|] eqn:Ef; auto.
+    assert (Hgo : match (if t_pool f =? p then Ok (s, XRcode ABT_ERR_MIGRATION_TARGET)
+                         else Ok (set_x s th (mkX (x_loc x) (Some p) (x_named x) (x_script x)), XRcode ABT_SUCCESS))
+                  with Ok (s', _) => XInv s' | Misuse => True | Abort => False | Wrong => False end).
+    { destruct (t_pool f =? p); auto. apply (XInv_set_x s th x); auto.
+      intros q Hq. cbn in Hq. inversion Hq; subst. auto. }
+    destruct (x_loc x); auto.
+  - (* self_schedule *)
+    destruct (zfind (x_thr s) th) as [x|] eqn:Ex; auto.
+    destruct (x_loc x) eqn:El; auto.
+    assert (Hl : x_loc x <> LPool) by congruence.
+    pose proof (schedule_XInv s th x x os HI Ex Hl (fun q Hq => xi_mig _ HI _ _ q Ex Hq)) as H.
+    unfold lift_run. destruct (schedule bi s th x os) as [[s' w]| | |]; auto.
+  - (* run_unit *)
+    destruct (pool_declared s p) eqn:Hd; cbn [negb]; auto.
+    destruct (zfind (x_thr s) th) as [x|] eqn:Ex; auto.
+    destruct (zfind (a_thr (x_a s)) th) as [f|] eqn:Ef; auto.
+    destruct (x_loc x) eqn:El; auto.
+    assert (Hl : x_loc x <> LPool) by congruence.
+    destruct (take_oracle bi (x_a s) th p os) as [o os'].
+    destruct (oracle_ok (x_a s) o) eqn:Hor; cbn [negb]; auto.
+    rewrite (unit_set_eq_thread_set bi _ _ _ p o (xi_a _ HI) Ef).
+    destruct (set_assoc_core s th x p o HI Ex Hl Hd Hor) as (a' & c & E & HI' & Hp).
+    rewrite E. destruct (Z.eqb_spec c ABT_SUCCESS) as [->|Hc]; auto.
+    cbn. rewrite Ex.
+    pose proof (schedule_XInv (with_a s a') th x x os' HI' Ex Hl) as H.
+    unfold lift_run. destruct (schedule bi (with_a s a') th x os') as [[s' w]| | |]; auto; apply H;
+      intros q Hq; apply (xi_mig _ HI _ _ _ Ex Hq).
+  - (* free *)
+    destruct (zfind (x_thr s) th) as [x|] eqn:Ex; auto.
+    destruct (x_loc x) eqn:El; auto.
+    assert (Hl : x_loc x <> LPool) by congruence.
+    destruct (XInv_remove s th x HI Ex Hl) as (a' & E & H). rewrite E. exact H.
+  - (* revive *)
+    destruct (pool_declared s p) eqn:Hd; cbn [negb]; auto.
+    destruct (zfind (x_thr s) th) as [x|] eqn:Ex; auto.
+    destruct (x_loc x) eqn:El; auto.
+    assert (Hl : x_loc x <> LPool) by congruence.
+    pose proof (x_set_assoc_ok s th x p os HI Ex Hl Hd) as H.
+    destruct (x_set_assoc bi s th p os) as [[[s1 c] os']| | |]; auto.
+    destruct H as (HI1 & Et & Ep & _).
+    destruct (c =? ABT_SUCCESS); auto.
+    set (x' := mkX LOut None (x_named x) script).
+    assert (HI2 : XInv (set_x s1 th x')).
+    { apply (XInv_set_x s1 th x); auto; [rewrite Et; auto| |discriminate].
+      right. split; auto. discriminate. }
+    apply (XInv_push' _ th x'); auto.
+    + cbn. rewrite zfind_zset, Z.eqb_refl. reflexivity.
+    + discriminate.
+    + discriminate.
+  - (* get_unit / unit_get_thread *)
+    destruct (zfind (x_thr s) th) as [x|] eqn:Ex; auto.
+    destruct (zfind (a_thr (x_a s)) th) as [f|] eqn:Ef; auto.
+    rewrite (get_thread_correct bi _ _ _ (xi_a _ HI) Ef). exact HI.
+Qed.
+
+(* what ABT_pool_pop / ABT_pool_pop_thread hands out: the work unit whose live
+   unit the pool chose; it was in that pool, and is associated with it *)
+Theorem pop_result s p k s' th u :
+  XInv s -> xstep bi s (XPop p k) = Ok (s', XRpop th u) ->
+  (th = 0 /\ u = 0 /\ zfind (x_pools s) p = Some []) \/
+  (exists c f x, zfind (x_pools s) p = Some c /\ In u c /\
+                 zfind (thr_of s) th = Some f /\ t_unit f = u /\ t_pool f = p /\
+                 zfind (x_thr s) th = Some x /\ x_loc x = LPool).
+Proof.
+  intros HI. cbn [xstep]. destruct (zfind (x_pools s) p) as [c|] eqn:Ec; [|discriminate].
+  destruct c as [|u0 c'].
+  - intros E; inversion E; subst. left. auto.
+  - set (c := u0 :: c') in *.
+    set (i := if bi p then O else Z.to_nat (k mod Z.of_nat (length c))).
+    assert (Hi : (i < length c)%nat).
+    { unfold i. destruct (bi p); [cbn; lia|].
+      assert (0 < Z.of_nat (length c)) by (cbn [length c]; lia).
+      pose proof (Z.mod_pos_bound k (Z.of_nat (length c)) H). lia. }
+    destruct (XInv_pop s p c i HI Ec Hi) as (th' & f & x & Eg & Ex & Ef & (Eu & Ep & El & Hin) & HI').
+    cbv zeta in Eg, Ef, HI'.
+    assert (Ef' : zfind (a_thr (x_a s)) th' = Some f) by (destruct (bi p); exact Ef).
+    assert (Hin' : In (t_unit f) c) by (rewrite Eu; exact Hin).
+    rewrite Eg, Ex, Ef. intros E; inversion E; subst.
+    right. exists c, f, x. unfold thr_of. repeat split; auto.
+Qed.
+
+Theorem xrun_XInv : forall ops s,
+  XInv s ->
+  let '(s', rs, e) := xrun bi s ops in
+  XInv s' /\ e <> Some 2 /\ e <> Some 3.
+Proof.
+  induction ops as [|op ops IH]; intros s HI; cbn [xrun].
+  - split; [auto|split; intros E; discriminate].
+  - pose proof (xstep_XInv s op HI) as H. destruct (xstep bi s op) as [[s1 r]| | |]; try contradiction.
+    + specialize (IH s1 H). destruct (xrun bi s1 ops) as [[s' rs] e]. auto.
+    + split; [auto|split; intros E; discriminate].
 Qed.
 
 End ApiProofs.
